@@ -223,6 +223,26 @@ def _zip(path, names):
 
 
 def check_special(case):
+    """A shape is reported only when it fails three times out of three, each time on a freshly built tree: path lookups
+    through dozens of symbolic links are at the mercy of the kernel (its count of followed links is not reset when a
+    lookup is restarted, so under memory pressure ELOOP can arrive early) - seen twice while 20 compilers were running
+    next to the check, never on a quiet machine. A defect in fselect fails every time."""
+    first = check_special_once(case)
+    if not first.discs:
+        return first
+    sigs = {d.sig for d in first.discs}
+    for _ in range(2):
+        again = check_special_once(case)
+        first.evals += again.evals
+        if {d.sig for d in again.discs} != sigs:
+            first.discs = []
+            first.inconclusive = True
+            first.classes = list(first.classes) + ["special-not-reproducible"]
+            return first
+    return first
+
+
+def check_special_once(case):
     out = Outcome()
     cdir = runner.new_case_dir()
     base = os.path.join(cdir, "w")
